@@ -846,6 +846,11 @@ pub fn gen_fair(r: &mut Rng, sid: String, transitions: bool) -> Scenario {
         };
         conns.push(ConnScript { calls, faulty: false, fail_write_at: 0, fail_once: false, fail_deliver: 0 });
     }
+    // now and then the first flooder's transport refuses every write (its sending side works): the server drops it
+    // at its first answer - while it is there it takes its turn like everybody else
+    if r.chance(1, 4) {
+        conns[0].fail_write_at = 1;
+    }
     let mut steps = Vec::new();
     // flooders connect and deliver everything first
     for c in 0..nflood {
@@ -878,6 +883,45 @@ pub fn gen_fair(r: &mut Rng, sid: String, transitions: bool) -> Scenario {
             4 if transitions => steps.push(Step::Tick(r.below(nflood as u64) as usize)),
             _ => steps.push(Step::Poll),
         }
+    }
+    Scenario { sid, conns, steps, fair: true }
+}
+
+/// C18 with several hundred connections open at the same time (an index that is kept in too narrow a type, a
+/// scan that is not really circular, show only there): all idle except a flooder and two waiting clients in
+/// slots before and behind it.
+pub fn gen_fair_wide(r: &mut Rng, sid: String) -> Scenario {
+    let n = r.range(270, 330);
+    let flooder = r.range(257, n - 8);
+    let before = r.range(0, flooder - 256);
+    let behind = r.range(flooder + 1, n - 1);
+    let mut conns: Vec<ConnScript> = Vec::new();
+    for c in 0..n {
+        let calls: Vec<Kind> = if c == flooder {
+            (0..r.range(5, 8)).map(|_| Kind::Plain(0)).collect()
+        } else if c == before || c == behind {
+            (0..r.range(1, 3)).map(|_| Kind::Plain(r.range(0, 6))).collect()
+        } else {
+            vec![]
+        };
+        conns.push(ConnScript { calls, faulty: false, fail_write_at: 0, fail_once: false, fail_deliver: 0 });
+    }
+    let mut steps = Vec::new();
+    for c in 0..n {
+        steps.push(Step::Connect(c));
+        if c % 16 == 15 {
+            steps.push(Step::Poll);
+        }
+    }
+    steps.push(Step::Poll);
+    steps.push(Step::Poll);
+    // everything the three active clients have to say is available before the first call is served
+    steps.push(Step::Send { c: flooder, frames: conns[flooder].calls.len(), extra: 0 });
+    let (a, b) = if r.chance(1, 2) { (before, behind) } else { (behind, before) };
+    steps.push(Step::Send { c: a, frames: conns[a].calls.len(), extra: 0 });
+    steps.push(Step::Send { c: b, frames: conns[b].calls.len(), extra: 0 });
+    for _ in 0..24 {
+        steps.push(Step::Poll);
     }
     Scenario { sid, conns, steps, fair: true }
 }
